@@ -102,11 +102,24 @@ def dedup(ctx, e1, e2, algo, api):
     expect_bytes(ctx, scn.read_hash(r1.value), data, tag + ":read-hash", "reading the address after both stores")
 
 
-def coexist(ctx, a1, a2, api):
+def coexist(ctx, a1, a2, api, by_hash=False):
     scn = ctx.new_scn(api=api)
     D = scn.blob("D")
     data = scn.whole(D)
-    tag = "C16:%s:coexist:%s+%s" % (api, a1, a2)
+    tag = "C16:%s:coexist:%s+%s%s" % (api, a1, a2, ":by-address" if by_hash else "")
+    if by_hash:
+        # keyless stores: the address returned for an algorithm must not depend on what other algorithms hold
+        r1 = scn.write_hash(data, algo=a1)
+        r2 = scn.write_hash(data, algo=a2)
+        if not expect_sri(ctx, r1, data, a1, tag + ":first", "keyless store with " + a1) or not expect_sri(ctx, r2, data, a2, tag + ":second", "keyless store with " + a2):
+            return
+        expect_bytes(ctx, scn.read_hash(r1.value), data, tag + ":read1", "read of the %s address" % a1)
+        expect_bytes(ctx, scn.read_hash(r2.value), data, tag + ":read2", "read of the %s address" % a2)
+        want2 = scn.sri_of(data, a2)
+        out = scn.exists(want2)
+        ctx.expect(out.kind == "ok" and out.value is True, tag + ":no-file", "nothing is stored under the %s address after a keyless %s store" % (a2, a2),
+                   native={"kind": "value_is", "step": last(scn), "value": {"bool": True}})
+        return
     r1 = scn.write("k1", data, algo=a1)
     r2 = scn.write("k2", data, algo=a2)
     if not expect_sri(ctx, r1, data, a1, tag + ":first", "store with " + a1) or not expect_sri(ctx, r2, data, a2, tag + ":second", "store with " + a2):
@@ -134,4 +147,5 @@ def tasks(tier, flavours):
             out.append(dict(module="C16", family="dedup", flavour=fl, params=dict(e1=e1, e2=e2, algo=algo, api=api)))
         for a1, a2 in (("Sha256", "Sha1"), ("Sha512", "Sha256"), ("Xxh3", "Sha384"), ("Sha1", "Sha512")):
             out.append(dict(module="C16", family="coexist", flavour=fl, params=dict(a1=a1, a2=a2, api=api)))
+            out.append(dict(module="C16", family="coexist", flavour=fl, params=dict(a1=a1, a2=a2, api=api, by_hash=True)))
     return out
